@@ -82,6 +82,12 @@ def guarded(fn, case):
         fnm = last.tb_frame.f_code.co_filename if last is not None else ''
         if fnm.startswith(os.path.join(REPO, 'bitcoin') + os.sep):
             raise unexpected('oracle-call', e) from None
+        if isinstance(e, (AttributeError, TypeError)) and fnm.startswith(os.path.join(VERIF, 'vlib', 'props') + os.sep):
+            # raised in the oracle's own code while READING a value the library returned (a method the result should have, an
+            # operation its type should support): the library handed back something of another kind than it does on the
+            # unchanged tree - where this line never raises, or the check would be broken there
+            raise unexpected('oracle-read', e, 'the oracle could not use what the library returned (%s line %d)' % (
+                os.path.basename(fnm), last.tb_lineno)) from None
         if isinstance(e, TypeError) and re.match(r'__\w+__ (returned|should return) ', str(e)):
             # raised by the interpreter on behalf of a library object's special method (str(), hash(), len(), bool() ...)
             raise unexpected('oracle-call/special-method', e) from None
